@@ -185,6 +185,13 @@ var registry = map[string]*Check{}
 
 func Register(ch *Check) { registry[ch.ID] = ch }
 
+// Each calls f for every registered check (used to wrap replay functions).
+func Each(f func(*Check)) {
+	for _, ch := range registry {
+		f(ch)
+	}
+}
+
 // Finding is one entry of known_findings.json.
 type Finding struct {
 	Property string `json:"property"`
